@@ -23,10 +23,14 @@ enum {
 };
 #define PHOTON_VERIF_SP(kind, addr) \
     do { if (__builtin_expect(photon_verif_sp != nullptr, 0)) photon_verif_sp((kind), (addr)); } while (0)
+// expression form, for places where a statement cannot be added without rewriting a line
+#define PHOTON_VERIF_SP_EXPR(kind, addr) \
+    ((photon_verif_sp != nullptr) ? photon_verif_sp((kind), (addr)) : (void)0)
 // in a spin loop that would otherwise burn `n` pause instructions: one busy-wait point, then return
 #define PHOTON_VERIF_SPIN_N_RETURN() \
     do { if (__builtin_expect(photon_verif_sp != nullptr, 0)) { photon_verif_sp(PHOTON_VERIF_SP_BUSYWAIT, nullptr); return; } } while (0)
 #else
 #define PHOTON_VERIF_SP(kind, addr) do { } while (0)
+#define PHOTON_VERIF_SP_EXPR(kind, addr) ((void)0)
 #define PHOTON_VERIF_SPIN_N_RETURN() do { } while (0)
 #endif
